@@ -21,5 +21,8 @@ mod bp;
 
 pub use bp::BalancedParens;
 pub use bp::{enclose, find_close, find_close_in_word, find_open, find_unmatched_close_in_word};
+#[cfg(feature = "verif-hooks")]
+#[doc(hidden)]
+pub use bp::verif_find_close_in_word_fast;
 #[allow(deprecated)] // STYLE-0004: WithSelect stays re-exported for backward compatibility
 pub use bp::{BpSelectCtx, NoSelect, SelectSupport, WithCsPoppy, WithSelect};
